@@ -23,7 +23,8 @@ Qed.
 Lemma globals_findings_are_f9 :
   map (fun r => (a_fn r, a_var r)) (finding_rows var_prots allow_list gen_accesses)
   = [("IsNamespaceScoped", "kyaml/openapi.globalSchema.namespaceabilityByResourceType");
-     ("IsNamespaceScoped", "kyaml/openapi.globalSchema.namespaceabilityByResourceType[]")].
+     ("IsNamespaceScoped", "kyaml/openapi.globalSchema.namespaceabilityByResourceType[]");
+     ("SetSchema", "kyaml/openapi.globalSchema.schemaInit")].
 Proof. vm_compute. reflexivity. Qed.
 
 (* the row judgement is the judgement of the soundness theorem: a disciplined write row carries a context in
